@@ -497,12 +497,30 @@ def applySign (isSub : Bool) (e : Expr) : Option Expr :=
   | .varRef _ _ | .call _ _ | .paren _ => some (.binary .mul (.int (if isSub then -1 else 1)) e)
   | _ => none
 
+/-- the token after `::` in `ParseVarRef`: a type name, or the keywords FIELD / TAG. -/
+def peTypeOfTok : Tok → Option DataType
+  | .ident tn => lookupType peTypeNames (lower tn)
+  | .kw .FIELD => some .anyField
+  | .kw .TAG => some .tag
+  | _ => none
+
 /-- INTEGER in `parseUnaryExpr`: int64, else uint64, else an error. -/
 def peInt (text : Str) : Option Expr :=
   let n := digitsVal text
   if (n : Int) ≤ maxInt64 then some (.int n)
   else if n ≤ maxUint64 then some (.uns n)
   else none
+
+/-- what one token of a `parseSet` list does to the key set (`neg` = the previous token was SUB). -/
+def setStep (t : Tok) (neg : Bool) (vals : List SetVal) : List SetVal :=
+  match t with
+  | .str x => setInsert (.str x) vals
+  | .int text | .num text =>
+    if text.isEmpty then vals
+    else
+      let n := parseNumText text
+      setInsert (.num (if neg then n.negate else n)) vals
+  | _ => if t.lit.isEmpty then vals else setInsert (.str t.lit) vals
 
 /-- `parseSet` after the LPAREN. `neg` = the previous token was SUB. -/
 def peSetLoop (S : Src σ) : Nat → σ → Bool → List SetVal → Option (List SetVal × σ)
@@ -511,18 +529,9 @@ def peSetLoop (S : Src σ) : Nat → σ → Bool → List SetVal → Option (Lis
     match scanNW S f s with
     | none => none
     | some (t, _, s') =>
-      let vals' : List SetVal :=
-        match t with
-        | .str x => setInsert (.str x) vals
-        | .int text | .num text =>
-          if text.isEmpty then vals
-          else
-            let n := parseNumText text
-            setInsert (.num (if neg then n.negate else n)) vals
-        | _ => if t.lit.isEmpty then vals else setInsert (.str t.lit) vals
-      if t = .sym .rparen then some (vals', s')
+      if t = .sym .rparen then some (setStep t neg vals, s')
       else if t = .eof then none       -- the Go loop never ends here
-      else peSetLoop S f s' (t = .sym .sub) vals'
+      else peSetLoop S f s' (t = .sym .sub) (setStep t neg vals)
 
 mutual
 /-- `ParseExpr`. -/
@@ -631,14 +640,9 @@ def peVarRef (S : Src σ) : Nat → List Str → σ → Option (Expr × σ)
         let (t1, s2) := S.scan s'
         if t1 = .sym .dcolon then
           let (t2, s3) := S.scan s2
-          match t2 with
-          | .ident tn =>
-            match lookupType peTypeNames (lower tn) with
-            | some ty => some (.varRef name ty, s3)
-            | none => none
-          | .kw .FIELD => some (.varRef name .anyField, s3)
-          | .kw .TAG => some (.varRef name .tag, s3)
-          | _ => none
+          match peTypeOfTok t2 with
+          | some ty => some (.varRef name ty, s3)
+          | none => none
         else some (.varRef name .unknown, s')
     if t = .sym .dot then
       match S.peekAfterDot s1 with
@@ -722,7 +726,7 @@ def charSrc : Src CState := ⟨charScan, charRegexAhead, charPeekAfterDot⟩
 /-- `influxql.ParseExpr(text)`: whatever follows the expression is ignored, as in the Go code. -/
 def parseExprChars (text : List Char) : Option Expr :=
   let cs := normInput text
-  match peExpr charSrc (8 * cs.length + 16) ⟨{}, cs⟩ with
+  match peExpr charSrc (16 * cs.length + 16) ⟨{}, cs⟩ with
   | some (e, _) => some e
   | none => none
 
@@ -746,7 +750,7 @@ def tokSrc : Src (List Tok) := ⟨tokScan, tokRegexAhead, tokPeekAfterDot⟩
 
 /-- `ParseExpr` on a token stream. -/
 def parseExpr (toks : List Tok) : Option Expr :=
-  match peExpr tokSrc (8 * toks.length + 16) toks with
+  match peExpr tokSrc (16 * toks.length + 16) toks with
   | some (e, _) => some e
   | none => none
 
